@@ -523,8 +523,8 @@ type PAInput struct {
 	DG1Present   bool
 	Store        [][]byte
 	// DG1StateRaw: the issuing-state characters of DG1 when they could be read but name no
-	// country (DG1State is "" then). With it set, PA reports a definite "differs" when the
-	// certificates name an ISO 3166-1 country, and "unknown" otherwise (additive, default off).
+	// country (DG1State is "" then). With it set, PA reports a definite "differs" (additive,
+	// default off).
 	DG1StateRaw *string
 }
 
@@ -571,7 +571,9 @@ func PA(in PAInput) (ok bool, why string, unknown bool) {
 	}
 	if in.DG1Present {
 		if in.DG1State == "" {
-			if in.DG1StateRaw != nil && IsISOAlpha2(country) {
+			// a readable field that names no country under the documented rule cannot be "the
+			// same issuing country" as any certificate, whatever code the certificates carry
+			if in.DG1StateRaw != nil {
 				return false, fmt.Sprintf("DG1 issuing state %q names no country (ISO 3166-1 alpha-3 or 'D'), the certificates name %s", *in.DG1StateRaw, country), false
 			}
 			return false, "", true
